@@ -19,7 +19,8 @@ QVerdict ==
     IF OpenQuery(e) THEN
          \* chained OPTIONAL clauses: the rows themselves are open, that none is removed is not (C10)
          (IF ~OptChainJudgeable(e) \/ e.err THEN "open"
-          ELSE IF LeftKeptDev(e.rows, e, {}) THEN "open"
+          ELSE IF ~Assert(ModelKeepsLeft(e), <<"Layer A does not keep the left rows of a chained OPTIONAL query", l>>) THEN "open"
+          ELSE IF LeftKeptDev(e.rows, e, {}) THEN (IF PrintT(<<"CHAIN", l>>) THEN "open" ELSE "open")   \* counted by lib/fam_bql.py
           ELSE IF \E dv \in Deviations : LeftKeptDev(e.rows, e, {dv}) THEN CHOOSE dv \in Deviations : LeftKeptDev(e.rows, e, {dv})
           ELSE "optional-removes-row")
     ELSE IF e.err THEN "error-instead-of-rows"
